@@ -508,7 +508,7 @@ pub fn bytes_strategy(_tier: Tier) -> BoxedStrategy<Case> {
 pub fn property() -> Property {
     Property {
         id: "C04",
-        rule: "operation histories (<=60 ops quick / <=160 thorough) over MatrixGraph for Directed/Undirected x Option/NotZero null element x u8/u16/u32 indices, started from default() or with_capacity(0..=9): add_node/try_add_node/Build::add_node, remove_node (live; absent => documented panic), add_edge/update_edge/try_update_edge/add_or_update_edge/Build paths between live nodes (incl. the highest ids, so rows relocate at the next growth), remove_edge (present; absent => documented panic), try_remove_edge with arbitrary ids, clear, extend_with_edges, weight writes, clone, bulk node additions across the 4/8/16/32/64 steps and up to the u8 limit; after every step counts, has_edge/get_edge_weight/is_adjacent for all pairs below bound+2, neighbors, edges, directed in-lists, node_identifiers, node_references, edge_references and node_bound are compared with a BTreeMap model in which a new id may be any non-live id; non-trivial = the history crosses a capacity step with >= 3 edges present or reuses the id of a removed node that had edges; distinct by fingerprint of the op sequence",
+        rule: "operation histories (<=60 ops quick / <=160 thorough) over MatrixGraph for Directed/Undirected x Option/NotZero null element x u8/u16/u32 indices, started from default() or with_capacity(0..=9): add_node/try_add_node/Build::add_node, remove_node (live; absent => documented panic), add_edge/update_edge/try_update_edge/add_or_update_edge/Build paths between live nodes (incl. the highest ids, so rows relocate at the next growth), remove_edge (present; absent => documented panic), try_remove_edge with arbitrary ids, clear, extend_with_edges, weight writes, clone, bulk node additions across the 4/8/16/32/64 steps and up to the u8 limit; after every step counts, has_edge/get_edge_weight/is_adjacent for all pairs below bound+2, neighbors, edges, directed in-lists, node_identifiers, node_references, edge_references and node_bound are compared with a BTreeMap model in which a new id may be any non-live id; non-trivial = the history crosses a capacity step with >= 3 edges present or reuses the id of a removed node that had edges; distinct by fingerprint of the op sequence; the *-from-bytes sub-checks feed the same interpreter with histories decoded from generated byte strings by the libFuzzer codec (all operation kinds equally likely, up to the thorough-tier length)",
         assumptions: &[
             "edge operations naming a non-existent node are generated only where the behaviour is documented consistently (remove_node/remove_edge panics, try_update_edge beyond any capacity); update_edge/add_or_update_edge on an absent in-capacity id is not generated",
             "add_edge on an existing edge (documented panic that leaves the new weight behind) is not generated",
